@@ -20,7 +20,8 @@ Seqs(S, n) == IF n = 0 THEN {<<>>} ELSE IF n = 1 THEN {<<a>> : a \in S} ELSE IF 
 UpTo(S, n) == UNION {Seqs(S, m) : m \in 0..n}
 
 ObsV == IF Size = "small" THEN {R(1), Frac(3, 2), R(3)} ELSE {R(0), R(1), Frac(3, 2), R(2), R(3), NaN}
-Cdfs == IF Size = "small" THEN {<<Zero, Zero>>, <<Zero, Frac(1, 2)>>, <<Frac(1, 4), One>>, <<One, One>>, <<Frac(1, 2), Frac(1, 2)>>}
+Cdfs == IF Size = "small" THEN {<<Zero, Zero>>, <<Zero, Frac(1, 2)>>, <<Frac(1, 4), One>>, <<One, One>>, <<Frac(1, 2), Frac(1, 2)>>,
+                                <<NaN, Frac(1, 2)>>, <<Frac(1, 4), NaN>>}      \* one of the two cumulative probabilities missing
         ELSE {x \in {<<Frac(a, 4), Frac(b, 4)>> : a \in 0..4, b \in 0..4} : Le(x[1], x[2])} \cup {<<NaN, Frac(1, 2)>>, <<Frac(1, 4), NaN>>}
 EvCases == {<<o, cc[1], cc[2]>> : o \in ObsV, cc \in Cdfs}
 QV == IF Size = "small" THEN {R(0), R(2)} ELSE {R(0), R(1), R(2)}
